@@ -118,22 +118,22 @@ Lemma acceptWord_in_fst : forall l, fst (acceptWord in_runes l) = notin_accepts 
 Proof.
   intros l. destruct (drop_spaces_split (l_rest l)) as (sp & A & B & C).
   unfold acceptWord, notin_accepts.
-  rewrite (skip_spaces_spec sp _ l (drop_spaces (l_rest l)) A B C) by (rewrite A at 2; rewrite app_length; lia).
+  rewrite (skip_spaces_spec sp _ l (drop_spaces (l_rest l)) A B C) by (pose proof (f_equal (@List.length Z) A) as LA; rewrite app_length in LA; lia).
   set (Y := consume sp l).
   assert (RY : l_rest Y = drop_spaces (l_rest l)) by (apply consume_rest; exact A).
   destruct (drop_spaces (l_rest l)) as [|c1 t1] eqn:D.
   - unfold in_runes. cbn [expect_word].
     rewrite (next_nil (pk Y)) by (rewrite pk_rest; exact RY). reflexivity.
-  - unfold in_runes. cbn [expect_word]. rewrite next_pk by congruence. rewrite (next_cons _ _ _ RY).
+  - unfold in_runes. cbn [expect_word]. rewrite next_pk by congruence. rewrite (LexProofs.next_cons _ _ _ RY).
     destruct (c1 =? 105); [|destruct t1; reflexivity].
     assert (RA : l_rest (adv Y) = t1) by (rewrite (adv_cons _ _ _ RY); reflexivity).
     destruct t1 as [|c2 t2].
     + rewrite (next_nil _ RA). reflexivity.
-    + rewrite (next_cons _ _ _ RA). destruct (c2 =? 110); [|reflexivity].
+    + rewrite (LexProofs.next_cons _ _ _ RA). destruct (c2 =? 110); [|reflexivity].
       assert (RB : l_rest (adv (adv Y)) = t2) by (rewrite (adv_cons _ _ _ RA); reflexivity).
       cbn [andb]. destruct t2 as [|c t2].
       * rewrite (peek_nil _ RB). reflexivity.
-      * rewrite (peek_cons _ _ _ RB). destruct (c =? 32); reflexivity.
+      * rewrite (peek_cons _ _ _ RB). destruct (c =? 32), (c =? eof); reflexivity.
 Qed.
 
 Lemma acceptWord_in_ok : forall l sp t2, l_rest l = sp ++ in_runes ++ t2 ->
@@ -144,10 +144,10 @@ Proof.
   rewrite (skip_spaces_spec sp _ l (in_runes ++ t2) R Hsp) by (try reflexivity; rewrite R, app_length; lia).
   set (Y := consume sp l).
   assert (RY : l_rest Y = 105 :: 110 :: t2) by (apply consume_rest; exact R).
-  unfold in_runes at 1. cbn [expect_word]. rewrite next_pk by congruence. rewrite (next_cons _ _ _ RY).
+  unfold in_runes at 1. cbn [expect_word]. rewrite next_pk by congruence. rewrite (LexProofs.next_cons _ _ _ RY).
   change (105 =? 105) with true. cbv iota.
   assert (RA : l_rest (adv Y) = 110 :: t2) by (rewrite (adv_cons _ _ _ RY); reflexivity).
-  rewrite (next_cons _ _ _ RA). change (110 =? 110) with true. cbv iota.
+  rewrite (LexProofs.next_cons _ _ _ RA). change (110 =? 110) with true. cbv iota.
   assert (RB : l_rest (adv (adv Y)) = t2) by (rewrite (adv_cons _ _ _ RA); reflexivity).
   rewrite consume_app. fold Y. unfold in_runes. cbn [consume].
   destruct t2 as [|c t2].
@@ -221,7 +221,7 @@ Section TextLex.
     { destruct sp as [|c sp]; [congruence|]. cbn [app hd_ok]. cbn [forallb] in Hsp. apply andb_true_iff in Hsp.
       destruct Hsp as [Hc _]. apply Z.eqb_eq in Hc. subst c. reflexivity. }
     set (X := consume not_runes l) in *.
-    assert (RX : l_rest X = sp ++ in_runes ++ tail) by (apply (m_rest _ _ _ _ _ M1)).
+    assert (RX : l_rest X = sp ++ in_runes ++ tail) by (rewrite <- (pk_rest X); apply (m_rest _ _ _ _ _ M1)).
     assert (A : acceptWord in_runes (pk X) = (true, pk (consume (not_runes ++ sp ++ in_runes) l))).
     { rewrite (acceptWord_in_ok (pk X) sp tail); [|rewrite pk_rest; exact RX|exact Hsp|exact Hf].
       rewrite consume_pk; [|destruct sp; [congruence|discriminate]|rewrite RX; destruct sp; [congruence|discriminate]].
@@ -290,3 +290,371 @@ Section TextLex.
     - rewrite L, E, T. cbn [rev]. rewrite app_nil_r, rev_involutive. reflexivity.
   Qed.
 End TextLex.
+
+(* ================================================================== Part B: the parser ignores token positions *)
+Definition mp {A B : Type} (f : A -> B) (r : pres A) : pres B :=
+  match r with POk a ts => POk (f a) (strip ts) | PErr _ => PErr noloc | PFuel => PFuel end.
+
+Definition erase_flag (xb : expr * bool) : expr * bool := (erase_loc (fst xb), snd xb).
+
+Lemma cur_strip : forall ts, cur (strip ts) = strip_tok (cur ts).
+Proof. destruct ts; reflexivity. Qed.
+Lemma tok_is_strip : forall t k vs, tok_is (strip_tok t) k vs = tok_is t k vs.
+Proof. intros t k [|v vs]; reflexivity. Qed.
+Lemma is_kind_strip : forall t k, is_kind (strip_tok t) k = is_kind t k.
+Proof. reflexivity. Qed.
+Lemma val_is_strip : forall t v, val_is (strip_tok t) v = val_is t v.
+Proof. reflexivity. Qed.
+Lemma tval_strip : forall t, tval (strip_tok t) = tval t.
+Proof. reflexivity. Qed.
+Lemma tkind_strip : forall t, tkind_of (strip_tok t) = tkind_of t.
+Proof. reflexivity. Qed.
+Lemma tloc_strip : forall t, tloc (strip_tok t) = noloc.
+Proof. reflexivity. Qed.
+
+Lemma next_strip {A B : Type} (f : A -> B) (ts : list token) (k : list token -> pres A) (k' : list token -> pres B) :
+  (forall r, k' (strip r) = mp f (k r)) -> Parser.next (strip ts) k' = mp f (Parser.next ts k).
+Proof. intros H. destruct ts as [|t [|t2 r]]; cbn; [reflexivity|reflexivity|]. apply (H (t2 :: r)). Qed.
+
+Lemma expect_strip {A B : Type} (f : A -> B) kd v (ts : list token) (k : list token -> pres A) (k' : list token -> pres B) :
+  (forall r, k' (strip r) = mp f (k r)) -> expect kd v (strip ts) k' = mp f (expect kd v ts k).
+Proof.
+  intros H. unfold expect. rewrite cur_strip, tok_is_strip. destruct (tok_is (cur ts) kd [v]).
+  - apply next_strip. exact H.
+  - reflexivity.
+Qed.
+
+Lemma pbind_strip {A A' B B' : Type} (f : A -> A') (h : B -> B') (r : pres A) (r' : pres A')
+    (k : A -> list token -> pres B) (k' : A' -> list token -> pres B') :
+  r' = mp f r -> (forall a ts, k' (f a) (strip ts) = mp h (k a ts)) -> pbind r' k' = mp h (pbind r k).
+Proof. intros -> H. destruct r; cbn; [apply H|reflexivity|reflexivity]. Qed.
+
+Section Param.
+  Variable g : grammar.
+  Variable o : oracles.
+  Variables pe pe' : Z -> nat -> list token -> pres expr.
+  Variable LF : nat.
+  Hypothesis HPE : forall p d ts, pe' p d (strip ts) = mp erase_loc (pe p d ts).
+
+  Ltac norm :=
+    cbv beta zeta;
+    rewrite ?cur_strip, ?tok_is_strip, ?is_kind_strip, ?val_is_strip, ?tval_strip, ?tkind_strip, ?tloc_strip;
+    cbn [erase_loc erase_flag fst snd].
+
+  (* one structural step; the leaves (recursive calls) are closed by the tactic given as argument *)
+  Ltac par leaf :=
+    norm;
+    lazymatch goal with
+    | |- _ = mp _ (POk _ _) => reflexivity
+    | |- _ = mp _ (PErr _) => reflexivity
+    | |- _ = mp _ PFuel => reflexivity
+    | |- _ = mp _ (Parser.next _ _) => apply next_strip; intros ?
+    | |- _ = mp _ (expect _ _ _ _) => apply expect_strip; intros ?
+    | |- _ = mp _ (pbind (pe _ _ _) _) => eapply pbind_strip; [apply HPE|]; intros ? ?
+    | |- _ = mp _ (if ?c then _ else _) => destruct c
+    | |- _ = mp _ (match ?c with _ => _ end) => destruct c
+    | |- _ => leaf
+    end.
+
+  Lemma args_loop_strip : forall lf d acc ts,
+    args_loop pe' lf d (map erase_loc acc) (strip ts) = mp (map erase_loc) (args_loop pe lf d acc ts).
+  Proof.
+    induction lf as [|lf IH]; intros d acc ts; cbn [args_loop]; norm;
+      destruct (tok_is (cur ts) TkBracket [")"%string]); try reflexivity.
+    assert (K : forall ts1,
+      pbind (pe' 0 d (strip ts1)) (fun node ts2 => args_loop pe' lf d (map erase_loc acc ++ [node]) ts2) =
+      mp (map erase_loc) (pbind (pe 0 d ts1) (fun node ts2 => args_loop pe lf d (acc ++ [node]) ts2))).
+    { intros ts1. eapply pbind_strip; [apply HPE|]. intros a ts2. cbv beta.
+      change [erase_loc a] with (map erase_loc [a]). rewrite <- map_app. apply IH. }
+    destruct acc as [|x acc']; [apply K|]. cbn [map]. apply expect_strip. intros ts1. apply K.
+  Qed.
+
+  Lemma parse_arguments_strip : forall d ts,
+    parse_arguments pe' LF d (strip ts) = mp (map erase_loc) (parse_arguments pe LF d ts).
+  Proof.
+    intros d ts. unfold parse_arguments. apply expect_strip. intros ts1.
+    eapply pbind_strip; [apply (args_loop_strip LF d [] ts1)|]. intros args ts2. cbv beta.
+    apply expect_strip. intros ts3. reflexivity.
+  Qed.
+
+  Lemma postfix_loop_strip : forall lf d ns node ts,
+    postfix_loop pe' LF lf d ns (erase_loc node) (strip ts) = mp erase_loc (postfix_loop pe LF lf d ns node ts).
+  Proof.
+    induction lf as [|lf IH]; intros d ns node ts; cbn [postfix_loop].
+    - repeat par idtac.
+    - repeat par ltac:(first
+        [ eapply pbind_strip; [apply parse_arguments_strip|]; intros ? ?
+        | lazymatch goal with |- _ = mp _ (postfix_loop pe LF lf ?d ?ns ?x ?t) => exact (IH d ns x t) end ]).
+  Qed.
+
+  Lemma parse_closure_strip : forall d ts,
+    parse_closure pe' d (strip ts) = mp erase_loc (parse_closure pe d ts).
+  Proof. intros d ts. unfold parse_closure. repeat par idtac. Qed.
+
+  Lemma array_loop_strip : forall lf d acc ts,
+    array_loop pe' lf d (map erase_loc acc) (strip ts) = mp (map erase_loc) (array_loop pe lf d acc ts).
+  Proof.
+    induction lf as [|lf IH]; intros d acc ts; cbn [array_loop]; norm;
+      destruct (tok_is (cur ts) TkBracket ["]"%string]); try reflexivity.
+    assert (K : forall ts1,
+      pbind (pe' 0 d (strip ts1)) (fun node ts2 => array_loop pe' lf d (map erase_loc acc ++ [node]) ts2) =
+      mp (map erase_loc) (pbind (pe 0 d ts1) (fun node ts2 => array_loop pe lf d (acc ++ [node]) ts2))).
+    { intros ts1. eapply pbind_strip; [apply HPE|]. intros a ts2. cbv beta.
+      change [erase_loc a] with (map erase_loc [a]). rewrite <- map_app. apply IH. }
+    destruct acc as [|x acc']; [apply K|]. cbn [map]. apply expect_strip. intros ts1. norm.
+    destruct (tok_is (cur ts1) TkBracket ["]"%string]); [reflexivity|apply K].
+  Qed.
+
+  Lemma parse_array_strip : forall tk d ts,
+    parse_array pe' LF (strip_tok tk) d (strip ts) = mp erase_loc (parse_array pe LF tk d ts).
+  Proof.
+    intros tk d ts. unfold parse_array. apply expect_strip. intros ts1.
+    eapply pbind_strip; [apply (array_loop_strip LF d [] ts1)|]. intros nodes ts2. cbv beta.
+    apply expect_strip. intros ts3. reflexivity.
+  Qed.
+
+  Lemma map_loop_strip : forall lf mloc d acc ts,
+    map_loop pe' lf noloc d (map erase_loc acc) (strip ts) = mp (map erase_loc) (map_loop pe lf mloc d acc ts).
+  Proof.
+    induction lf as [|lf IH]; intros mloc d acc ts; cbn [map_loop]; norm;
+      destruct (tok_is (cur ts) TkBracket ["}"%string]); try reflexivity.
+    destruct acc as [|x acc']; cbn [map];
+      repeat par ltac:(idtac; lazymatch goal with
+        |- _ = mp _ (map_loop pe lf ?m ?d ?a ?t) =>
+          etransitivity; [|exact (IH m d a t)]; rewrite ?map_app; reflexivity end).
+  Qed.
+
+  Lemma parse_map_strip : forall tk d ts,
+    parse_map pe' LF (strip_tok tk) d (strip ts) = mp erase_loc (parse_map pe LF tk d ts).
+  Proof.
+    intros tk d ts. unfold parse_map. apply expect_strip. intros ts1.
+    eapply pbind_strip; [apply (map_loop_strip LF (tloc tk) d [] ts1)|]. intros pairs ts2. cbv beta.
+    apply expect_strip. intros ts3. reflexivity.
+  Qed.
+
+  Lemma parse_identifier_expression_strip : forall tk d ts,
+    parse_identifier_expression g pe' LF (strip_tok tk) d (strip ts) =
+    mp erase_loc (parse_identifier_expression g pe LF tk d ts).
+  Proof.
+    intros tk d ts. unfold parse_identifier_expression.
+    repeat par ltac:(first
+      [ eapply pbind_strip; [apply parse_arguments_strip|]; intros ? ?
+      | eapply pbind_strip; [apply parse_closure_strip|]; intros ? ? ]).
+  Qed.
+
+  Lemma parse_primary_expression_strip : forall d ts,
+    parse_primary_expression g o pe' LF d (strip ts) = mp erase_flag (parse_primary_expression g o pe LF d ts).
+  Proof.
+    intros d ts. unfold parse_primary_expression.
+    repeat par ltac:(first
+      [ eapply pbind_strip; [apply parse_identifier_expression_strip|]; intros ? ?
+      | eapply pbind_strip; [apply parse_array_strip|]; intros ? ?
+      | eapply pbind_strip; [apply parse_map_strip|]; intros ? ? ]).
+  Qed.
+
+  Lemma parse_base_strip : forall d ts,
+    parse_base g o pe' LF d (strip ts) = mp erase_flag (parse_base g o pe LF d ts).
+  Proof.
+    intros d ts. unfold parse_base.
+    repeat par ltac:(apply parse_primary_expression_strip).
+  Qed.
+
+  Lemma parse_primary_strip : forall d ts,
+    parse_primary g o pe' LF d (strip ts) = mp erase_loc (parse_primary g o pe LF d ts).
+  Proof.
+    intros d ts. unfold parse_primary.
+    eapply pbind_strip; [apply parse_base_strip|]. intros [x b] ts1. cbn [erase_flag fst snd].
+    destruct b; [apply postfix_loop_strip|reflexivity].
+  Qed.
+
+  Lemma binary_loop_strip : forall lf prec d left ts,
+    binary_loop g o pe' lf prec d (erase_loc left) (strip ts) = mp erase_loc (binary_loop g o pe lf prec d left ts).
+  Proof.
+    induction lf as [|lf IH]; intros prec d left ts; cbn [binary_loop].
+    - repeat par idtac.
+    - repeat par ltac:(idtac; lazymatch goal with
+        |- _ = mp _ (binary_loop g o pe lf ?p ?d ?x ?t) => exact (IH p d x t) end).
+  Qed.
+
+  Lemma cond_loop_strip : forall lf d node ts,
+    cond_loop pe' lf d (erase_loc node) (strip ts) = mp erase_loc (cond_loop pe lf d node ts).
+  Proof.
+    induction lf as [|lf IH]; intros d node ts; cbn [cond_loop].
+    - repeat par idtac.
+    - repeat par ltac:(idtac; lazymatch goal with
+        |- _ = mp _ (cond_loop pe lf ?d ?x ?t) => exact (IH d x t) end).
+  Qed.
+
+  Lemma expression_body_strip : forall prec d ts,
+    expression_body g o pe' LF prec d (strip ts) = mp erase_loc (expression_body g o pe LF prec d ts).
+  Proof.
+    intros prec d ts. unfold expression_body.
+    eapply pbind_strip; [apply parse_primary_strip|]. intros left ts1. cbv beta.
+    eapply pbind_strip; [apply binary_loop_strip|]. intros node ts2. cbv beta.
+    destruct (prec =? 0); [apply cond_loop_strip|reflexivity].
+  Qed.
+End Param.
+
+Lemma parse_expr_strip (g : grammar) (o : oracles) : forall n p d ts,
+  parse_expr g o n p d (strip ts) = mp erase_loc (parse_expr g o n p d ts).
+Proof.
+  induction n as [|n IH]; intros p d ts; cbn [parse_expr]; [reflexivity|].
+  apply expression_body_strip. exact IH.
+Qed.
+
+(* parsing a token list without its positions = parsing it and forgetting the locations afterwards
+   (in particular: the same outcome class, and the same tree up to locations) *)
+Theorem parse_strip (g : grammar) (o : oracles) : forall ts,
+  parse g o (strip ts) = erase_result (parse g o ts).
+Proof.
+  intros ts. unfold parse.
+  replace (List.length (strip ts)) with (List.length ts) by (unfold strip; rewrite map_length; reflexivity).
+  unfold parse_with_fuel.
+  destruct ts as [|t r]; [reflexivity|]. change (strip_tok t :: strip r) with (strip (t :: r)).
+  rewrite parse_expr_strip. destruct (parse_expr g o (S (List.length (t :: r))) 0 0 (t :: r)) as [e rest| |]; cbn [mp]; try reflexivity.
+  rewrite cur_strip, is_kind_strip. destruct (is_kind (cur rest) TkEOF); reflexivity.
+Qed.
+
+(* ================================================================== Part C: text -> tokens -> tree *)
+Definition xtoken (x : xtok) : token := mkTok noloc (xtok_kind x) (xtok_value x).
+
+Lemma strip_expectedx : forall items pos, strip (expectedx pos items) = map (fun it => xtoken (snd it)) items.
+Proof.
+  induction items as [|[ws x] items IH]; intros pos; [reflexivity|].
+  cbn [expectedx strip map snd]. f_equal. apply IH.
+Qed.
+
+Lemma tkind_eqb_eq : forall a b, tkind_eqb a b = true -> a = b.
+Proof. intros [] []; cbn; intros H; try reflexivity; discriminate H. Qed.
+
+Section Text.
+  Variables uni_letter uni_digit uni_space : Z -> bool.
+  Notation xtok_ok := (xtok_ok uni_letter uni_digit uni_space).
+  Notation check := (check uni_letter uni_digit uni_space).
+  Notation pre_spell := (pre_spell uni_letter uni_digit uni_space).
+  Notation pre_spell_all := (pre_spell_all uni_letter uni_digit uni_space).
+  Notation lexable := (lexable uni_letter uni_digit uni_space).
+  Notation render := (render uni_letter uni_digit uni_space).
+  Notation layout_good := (layout_good uni_letter uni_digit uni_space).
+  Notation parse_text := (parse_text uni_letter uni_digit uni_space).
+
+  Lemma pre_spell_check : forall t p, pre_spell t = Some p -> check t p = true.
+  Proof.
+    intros t p H. unfold Render.pre_spell in H.
+    destruct (utf8_decode (tval t)) as [rs|]; [|discriminate].
+    destruct (candidate t rs) as [p'|]; [|discriminate].
+    destruct (check t p') eqn:C; [|discriminate]. injection H as <-. exact C.
+  Qed.
+
+  (* the spelling chosen for a token denotes that token, whatever the layout chooses *)
+  Lemma pre_spell_sound : forall t p L i, pre_spell t = Some p -> xtoken (finish L i p) = strip_tok t.
+  Proof.
+    intros t p L i H. apply pre_spell_check in H. destruct p as [x|rs|]; cbn [Render.check finish] in *.
+    - apply andb_true_iff in H. destruct H as [H V]. apply andb_true_iff in H. destruct H as [_ K].
+      apply tkind_eqb_eq in K. apply String.eqb_eq in V. unfold xtoken, strip_tok. rewrite K, V. reflexivity.
+    - apply andb_true_iff in H. destruct H as [H K]. apply andb_true_iff in H. destruct H as [S V].
+      apply tkind_eqb_eq in K. apply String.eqb_eq in V.
+      set (q := if dquote L i then 34 else 39).
+      assert (Hq : q = 34 \/ q = 39) by (unfold q; destruct (dquote L i); auto).
+      destruct (canon_items_ok q rs Hq S) as [_ B].
+      unfold xtoken, strip_tok. cbn [xtok_kind xtok_value tok_kind tok_value]. rewrite B, V, K. reflexivity.
+    - apply andb_true_iff in H. destruct H as [K V]. apply tkind_eqb_eq in K. apply String.eqb_eq in V.
+      unfold xtoken, strip_tok. cbn [xtok_kind xtok_value]. rewrite <- K, <- V. reflexivity.
+  Qed.
+
+  Lemma spell_all_strip : forall toks ps L i, pre_spell_all toks = Some ps ->
+    map (fun it => xtoken (snd it)) (items_of L i ps) ++ [mkTok noloc TkEOF ""%string] = strip toks.
+  Proof.
+    induction toks as [|t r IH]; intros ps L i H; [discriminate|].
+    destruct r as [|t2 r'].
+    - cbn [Render.pre_spell_all] in H.
+      destruct (tkind_eqb (tkind_of t) TkEOF && String.eqb (tval t) "") eqn:C; [|discriminate].
+      injection H as <-. apply andb_true_iff in C. destruct C as [K V].
+      apply tkind_eqb_eq in K. apply String.eqb_eq in V.
+      cbn [items_of map app strip]. unfold strip_tok. rewrite K, V. reflexivity.
+    - change (pre_spell_all (t :: t2 :: r')) with
+        (match pre_spell t, pre_spell_all (t2 :: r') with Some p, Some ps0 => Some (p :: ps0) | _, _ => None end) in H.
+      destruct (pre_spell t) as [p|] eqn:E1; [|discriminate].
+      destruct (pre_spell_all (t2 :: r')) as [ps0|] eqn:E2; [|discriminate].
+      injection H as <-. cbn [items_of map app snd]. rewrite (pre_spell_sound t p L i E1).
+      change (strip (t :: t2 :: r')) with (strip_tok t :: strip (t2 :: r')). f_equal.
+      apply IH. reflexivity.
+  Qed.
+
+  (* For EVERY token list that has a spelling and EVERY good layout: parser.Parse on the rendered text
+     and the parser on the tokens agree — same outcome class, same tree up to locations. *)
+  Theorem text_tokens : forall g o L toks, layout_good L toks = true ->
+    erase_result (parse_text g o (render L toks)) = erase_result (parse g o toks).
+  Proof.
+    intros g o L toks H. unfold Render.layout_good, Render.render, Render.parse_text in *.
+    destruct (pre_spell_all toks) as [ps|] eqn:E; [|discriminate].
+    unfold render_pre. rewrite (lex_text uni_letter uni_digit uni_space _ _ H).
+    rewrite <- !parse_strip. f_equal.
+    unfold strip at 1. rewrite map_app. fold (strip (expectedx (1, 0) (items_of L 0 ps))).
+    rewrite strip_expectedx. cbn [map]. unfold strip_tok at 1. cbn [tkind_of tval].
+    apply spell_all_strip. exact E.
+  Qed.
+
+  Lemma layout_good_lexable : forall L toks, layout_good L toks = true -> lexable toks = true.
+  Proof.
+    intros L toks H. unfold Render.layout_good, Render.lexable in *. destruct (pre_spell_all toks); [reflexivity|discriminate].
+  Qed.
+
+  (* white space never changes the outcome: any two good layouts of the same tokens *)
+  Theorem whitespace_irrelevant_tokens : forall g o L1 L2 toks,
+    layout_good L1 toks = true -> layout_good L2 toks = true ->
+    erase_result (parse_text g o (render L1 toks)) = erase_result (parse_text g o (render L2 toks)).
+  Proof. intros g o L1 L2 toks H1 H2. rewrite (text_tokens g o L1 toks H1), (text_tokens g o L2 toks H2). reflexivity. Qed.
+
+  Section RoundTrip.
+    Variable g : grammar.
+    Variable o : oracles.
+    Variable fmt_int : Z -> string.
+    Variable fmt_float : float -> string.
+    Hypothesis G : wf_grammar g = true.
+    Notation printable := (printable g fmt_int fmt_float o).
+    Notation print_any := (print_any g fmt_int fmt_float).
+
+    Lemma erase_result_ok : forall r t, erase_result r = ROk (erase_loc t) ->
+      exists t', r = ROk t' /\ erase_loc t' = erase_loc t.
+    Proof.
+      intros [e|l|] t H; cbn [erase_result] in H; try discriminate. injection H as H. exists e. split; [reflexivity|exact H].
+    Qed.
+
+    (* print, lay out, lex, parse: the same tree (up to locations) *)
+    Theorem text_roundtrip : forall c t L,
+      printable c t -> layout_good L (print_any c t) = true ->
+      exists t', parse_text g o (render L (print_any c t)) = ROk t' /\ erase_loc t' = erase_loc t.
+    Proof.
+      intros c t L W H. apply erase_result_ok.
+      rewrite (text_tokens g o L _ H). rewrite (roundtrip g o fmt_int fmt_float G c t W). reflexivity.
+    Qed.
+
+    Theorem whitespace_irrelevant : forall c t L1 L2,
+      printable c t -> layout_good L1 (print_any c t) = true -> layout_good L2 (print_any c t) = true ->
+      exists t1 t2,
+        parse_text g o (render L1 (print_any c t)) = ROk t1 /\
+        parse_text g o (render L2 (print_any c t)) = ROk t2 /\
+        erase_loc t1 = erase_loc t2 /\ erase_loc t1 = erase_loc t.
+    Proof.
+      intros c t L1 L2 W H1 H2.
+      destruct (text_roundtrip c t L1 W H1) as (t1 & P1 & E1).
+      destruct (text_roundtrip c t L2 W H2) as (t2 & P2 & E2).
+      exists t1, t2. repeat split; try assumption. congruence.
+    Qed.
+
+    Theorem redundant_parentheses_text : forall c1 c2 t L1 L2,
+      printable c1 t -> printable c2 t ->
+      layout_good L1 (print_any c1 t) = true -> layout_good L2 (print_any c2 t) = true ->
+      exists t1 t2,
+        parse_text g o (render L1 (print_any c1 t)) = ROk t1 /\
+        parse_text g o (render L2 (print_any c2 t)) = ROk t2 /\
+        erase_loc t1 = erase_loc t2 /\ erase_loc t1 = erase_loc t.
+    Proof.
+      intros c1 c2 t L1 L2 W1 W2 H1 H2.
+      destruct (text_roundtrip c1 t L1 W1 H1) as (t1 & P1 & E1).
+      destruct (text_roundtrip c2 t L2 W2 H2) as (t2 & P2 & E2).
+      exists t1, t2. repeat split; try assumption. congruence.
+    Qed.
+  End RoundTrip.
+End Text.
